@@ -482,7 +482,8 @@ class C03(Machine):
             sub = self.detached.pop(k % len(self.detached))
             used = set(id(n.taxon) for n in nodes if n.taxon is not None)
             subtaxa = [x.taxon for x in leaves_below(sub) if x.taxon is not None]
-            if any(id(t) in used for t in subtaxa):
+            # a taxon of the subtree (leaf or internal) that was handed to a fresh node meanwhile would appear twice
+            if any(id(x.taxon) in used for x in rawtree.raw_nodes(_Sub(sub)) if x.taxon is not None):
                 return None
             A = set(id(t) for t in subtaxa)
             # taxa on internal nodes of the re-attached subtree may surface as leaves later
